@@ -65,6 +65,10 @@ def catalogue():
     for op in ("and", "or", "xor"):
         cat.append((op, ("bool", "bool"), _bin(op)))
     cat.append(("invert", ("bool",), lambda a: ["invert", a[0]]))
+    cat.append(("is_nan", ("float",), lambda a: ["is_nan", a[0]]))
+    cat.append(("is_not_nan", ("float",), lambda a: ["is_not_nan", a[0]]))
+    cat.append(("invert_and", ("bool", "bool"), lambda a: ["invert", ["and", a[0], a[1]]]))
+    cat.append(("invert_or", ("bool", "bool"), lambda a: ["invert", ["or", a[0], a[1]]]))
     for t in DOM:
         cat.append(("is_null", (t,), lambda a: ["is_null", a[0]]))
         cat.append(("is_not_null", (t,), lambda a: ["is_not_null", a[0]]))
